@@ -1,6 +1,8 @@
 package main
 
 import (
+	"go/types"
+	"sort"
 	"fmt"
 	"strings"
 
@@ -271,6 +273,7 @@ func init() {
 			c.und("commit-reset", "doCommitValue", "", "anchor not found")
 		}
 
+		c12HeightScoped(c)
 		c12Thresholds(c)
 	})
 }
@@ -393,4 +396,119 @@ func c12Thresholds(c *Ctx) {
 		c.und("proposer", "VoteCounter.AddProposal", "", "anchor not found")
 	}
 	c.floor("thresholds", 9)
+}
+
+
+// heightIndependent: fields of the state machine that deliberately survive a commit.
+var heightIndependent = map[string]string{
+	"stateMachine.lastTriggerSync": "remembers the last height for which a sync was triggered (monotone height marker)",
+	"stateMachine.lastQuorum":      "remembers the last height for which a future-height quorum was seen (monotone height marker)",
+	"stateMachine.state":           "reset field by field (checked per field)",
+}
+
+// c12HeightScoped: every field of the state machine (and of its round state) that is mutated after construction is
+// re-initialised on commit — otherwise what was learned about height h (locks, validity verdicts, first-time flags, caches)
+// leaks into height h+1.
+func c12HeightScoped(c *Ctx) {
+	p := c.P
+	commit := tmFunc(p, "doCommitValue")
+	if commit == nil {
+		c.und("height-scoped", "doCommitValue", "", "anchor not found")
+		return
+	}
+	// functions executed by a commit (within the package)
+	inCommit := map[*ssa.Function]bool{}
+	reach := p.Reachable([]*ssa.Function{commit}, func(caller, callee *ssa.Function) bool { return pkgRelOf(callee) != "consensus/tendermint" })
+	for _, g := range reach.Funcs() {
+		inCommit[canonGeneric(g)] = true
+		inCommit[g] = true
+	}
+	type mut struct {
+		fns    map[string]bool
+		commit bool
+		pos    string
+	}
+	muts := map[string]*mut{}
+	note := func(typ, field string, fn *ssa.Function, pos string) {
+		k := typ + "." + field
+		m := muts[k]
+		if m == nil {
+			m = &mut{fns: map[string]bool{}}
+			muts[k] = m
+		}
+		root := canonGeneric(rootOf(fn))
+		if root.Name() == "New" {
+			return
+		}
+		m.fns[root.Name()] = true
+		m.pos = pos
+		if inCommit[root] || inCommit[rootOf(fn)] {
+			m.commit = true
+		}
+	}
+	ownerOf := func(t types.Type) string {
+		for _, n := range []string{"stateMachine", "state"} {
+			if isNamed(t, "consensus/tendermint", n) {
+				return n
+			}
+		}
+		return ""
+	}
+	for _, fn := range p.sortedFuncs() {
+		if pkgRelOf(fn) != "consensus/tendermint" || fn.Origin() != nil || strings.HasSuffix(p.Pos(fnPos(fn)), "_test.go") {
+			continue
+		}
+		allInstrs(fn, func(in ssa.Instruction) {
+			switch x := in.(type) {
+			case *ssa.Store:
+				if fa, ok := x.Addr.(*ssa.FieldAddr); ok {
+					if o := ownerOf(fa.X.Type()); o != "" {
+						if _, fresh := fa.X.(*ssa.Alloc); !fresh {
+							note(o, fieldName(fa.X.Type(), fa.Field), fn, p.Pos(posOf(in, fn)))
+						}
+					}
+				}
+			case *ssa.MapUpdate:
+				if ld, ok := x.Map.(*ssa.UnOp); ok {
+					if fa, ok := ld.X.(*ssa.FieldAddr); ok {
+						if o := ownerOf(fa.X.Type()); o != "" {
+							note(o, fieldName(fa.X.Type(), fa.Field), fn, p.Pos(posOf(in, fn)))
+						}
+					}
+				}
+			case ssa.CallInstruction:
+				// delete(m, k) / clear(m) / append through a field are mutations too
+				if b, ok := x.Common().Value.(*ssa.Builtin); ok && (b.Name() == "delete" || b.Name() == "clear") && len(x.Common().Args) > 0 {
+					if ld, ok := x.Common().Args[0].(*ssa.UnOp); ok {
+						if fa, ok := ld.X.(*ssa.FieldAddr); ok {
+							if o := ownerOf(fa.X.Type()); o != "" {
+								note(o, fieldName(fa.X.Type(), fa.Field), fn, p.Pos(posOf(in, fn)))
+							}
+						}
+					}
+				}
+			}
+		})
+	}
+	var ks []string
+	for k := range muts {
+		ks = append(ks, k)
+	}
+	sort.Strings(ks)
+	n := 0
+	for _, k := range ks {
+		m := muts[k]
+		if len(m.fns) == 0 {
+			continue
+		}
+		n++
+		if why, ok := heightIndependent[k]; ok {
+			c.ok("height-scoped", k, m.pos, "survives a commit by design: "+why)
+			continue
+		}
+		c.check(m.commit, "height-scoped", k, m.pos, "re-initialised by the commit action", "field "+k+" is mutated while a height is being decided ("+strings.Join(keysOf(m.fns), ", ")+") but the commit action does not re-initialise it: what was recorded for height h is applied to height h+1 (e.g. a validity verdict cached per round lets an invalid proposal of the next height through)")
+	}
+	if n < 10 {
+		c.und("height-scoped", "stateMachine fields", "", fmt.Sprintf("only %d mutated fields found", n))
+	}
 }
